@@ -156,7 +156,7 @@ enum Op {
   OP_CPLX_FROM_TNX32_SIMPLE, OP_CPLX_TO_TNX32_SIMPLE,
   OP_R4_MUL_SIMPLE, OP_R4_ADDMUL_SIMPLE, OP_R4_FROM_CPLX_SIMPLE, OP_R4_TO_CPLX_SIMPLE,
   // object life cycle through the library allocator (C11 conservation; results unused)
-  OP_LIFE_MODULE, OP_LIFE_DFT, OP_LIFE_BIG, OP_LIFE_PPOL, OP_LIFE_PMAT, OP_LIFE_TABLE, OP_LIFE_ALLOC, OP_LIFE_FFT_BUFFERS, OP_LIFE_MODULE_PAIR, OP_LIFE_MODULE_SEQ,
+  OP_LIFE_MODULE, OP_LIFE_DFT, OP_LIFE_BIG, OP_LIFE_PPOL, OP_LIFE_PMAT, OP_LIFE_TABLE, OP_LIFE_ALLOC, OP_LIFE_FFT_BUFFERS, OP_LIFE_MODULE_PAIR, OP_LIFE_MODULE_SEQ, OP_LIFE_TABLE_SEQ,
   OP_NOPS
 };
 
